@@ -354,6 +354,8 @@ class C06(CrossCfg):
 
 
 class C10(CrossCfg):
+    lean = ["Props.C10clean", "Audit.C10clean"]
+    audit = ["C10clean"]
     tie = ["SqlExpiry", "SqlFull_rkey"]
     facts = [r"^sql\..*\.expiry$", r"^sql\.rkey\.sql(Delete|Expire|Persist)", r"^consts\.bg_"]
     listed = ALL_API_FINDINGS
@@ -470,6 +472,141 @@ class C16(Cfg):
         return None
 
 
+class C07(Cfg):
+    lean = ["Props.C07", "Audit.C07", "Props.C12", "Audit.C12"]
+    audit = ["C07", "C12"]
+    tie = ["Facts_rstring", "Facts_rkey", "Facts_rlist", "Facts_rset", "Facts_rhash", "Facts_rzset", "Consts"]
+    facts = [r"^wrappers\.", r"^facts\.", r"^consts\.(execTx|dataSource|applySettings|open|new|update|view)"]
+    listed = ALL_API_FINDINGS | {"D14"}
+    rule = ("random traces through an interposing database/sql driver (Options.DriverName): each operation is first attempted with a storage fault "
+            "injected before RW call k (k in 1..6: begin, any statement, commit), then run again without fault; interleaved user transactions of "
+            "1..4 operations aborted after any prefix by returned error, panic, commit failure and (every 4th trace) context cancellation; a FAULT "
+            "case must report the failure and leave all six tables byte-identical; the steps that follow are judged against model and spec; "
+            "distinct by (fault description, pre-state)")
+
+    def streams(self, tier, seed, search):
+        n = 16
+        t, l = (600, 80) if tier == "thorough" else ((160, 70) if search else (70, 70))
+        return [dict(kind="fault", args=["-seed", seed * 1000 + 500 + i, "-traces", t, "-len", l, "-cancel", 4]) for i in range(n)]
+
+    def counts(self, op, v):
+        return "R" in v
+
+    def judge(self, op, v, mode):
+        if "R" in v:      # a FAULT line
+            if v.get("A") == "0":
+                return ("violation", "a failed operation / aborted transaction changed the tables")
+            if v.get("R") == "0":
+                return ("violation", "an injected failure was not reported to the caller")
+            if v.get("F") == "0" and "D14" not in v["K"]:
+                return ("violation", "connection settings changed after the failure")
+            return None
+        if v.get("P") == "1" and v.get("I") == "0" and not (set(v["K"]) & self.listed):
+            return ("violation", "the database is structurally inconsistent after continuing past a failure")
+        return judge_spec(v, self.listed)
+
+
+class C08(Cfg):
+    lean = []
+    audit = []
+    tie = ["Consts", "Facts_rstring", "Facts_rkey", "Facts_rlist", "Facts_rset", "Facts_rhash", "Facts_rzset"]
+    facts = [r"^wrappers\.", r"^consts\.(setNumConns|rwMaxOpenConns|dataSource|execTx|applySettings)"]
+    listed = {"D15"}
+    rule = ("rounds of 2..5 goroutines sharing one handle, 2..4 operations each on 1..3 keys (increments, gets, sets, list push/pop/rotate, set "
+            "add/move/pop, hash increments) with random start offsets; the Lean driver searches for a sequential order of whole operations that "
+            "respects the recorded call/return instants and explains every result and the final tables (Wing-Gong on the model); plus conservation "
+            "runs of 160..320 concurrent increments, pops from both ends and moves; on-disk WAL, in-memory VFS and shared-cache :memory: "
+            "configurations; a case is one history, non-trivial when at least two operations overlapped")
+
+    def streams(self, tier, seed, search):
+        n = 12
+        r = 2500 if tier == "thorough" else (400 if search else 200)
+        out = [dict(kind="conc", args=["-seed", seed * 1000 + 600 + i, "-rounds", r, "-cons", 2, "-cfgs", "wal,memdb"]) for i in range(n)]
+        out += [dict(kind="conc", args=["-seed", seed * 1000 + 650 + i, "-rounds", r // 2, "-cons", 1, "-cfgs", "shared"]) for i in range(2)]
+        return out
+
+    def counts(self, op, v):
+        return "L" in v
+
+    def judge(self, op, v, mode):
+        if "L" not in v:
+            return None
+        if v.get("E") == "1" and not (set(v["K"]) & self.listed):
+            return ("violation", "an operation failed merely because another one was running")
+        if v.get("L") == "0" and not (set(v["K"]) & self.listed):
+            return ("violation", "no sequential order of the operations that respects real time explains the observed results and final state")
+        if v.get("I") == "0":
+            return ("violation", "the tables are structurally inconsistent after the concurrent round")
+        return None
+
+
+class C09(Cfg):
+    lean = []
+    audit = []
+    tie = ["Schema", "Consts"]
+    facts = [r"^schema\.", r"^consts\.(defaultPragma|open|openRead|close|applySettings|createSchema|dataSource)"]
+    listed = set()
+    rule = ("workloads of 8..12 writes of all five types on an on-disk database (WAL, default pragmas) executed by a child process through an interposing "
+            "driver that calls os.Exit (no Close) before and after RW call k, for sampled k over all begin/statement/commit calls, plus death right "
+            "after the last acknowledgement and clean close/re-open cycles; the parent re-opens read-write and read-only, runs pragma integrity_check "
+            "and dumps; the Lean driver checks recovered = model state after the acknowledged operations, or after one more (the in-flight one), and "
+            "the structural invariant; a case is one crash point, non-trivial when at least one write had been acknowledged")
+
+    def streams(self, tier, seed, search):
+        n = 16
+        t, l, p = (40, 12, 0) if tier == "thorough" else ((8, 10, 12) if search else (4, 10, 10))
+        return [dict(kind="crash", args=["-seed", seed * 1000 + 700 + i, "-traces", t, "-len", l, "-points", p]) for i in range(n)]
+
+    def counts(self, op, v):
+        return "W" in v
+
+    def judge(self, op, v, mode):
+        if "W" not in v:
+            return None
+        if v.get("R") == "0":
+            return ("violation", "the database could not be re-opened (read-write and read-only) or failed SQLite's integrity check after process death")
+        if v.get("S") == "0":
+            return ("violation", "the recovered content is neither the state after the acknowledged writes nor that state plus the whole in-flight write")
+        if v.get("I") == "0":
+            return ("violation", "the recovered database violates the structural invariant")
+        return None
+
+
+class C20(CrossCfg):
+    lean = ["Props.C20", "Audit.C20", "Props.C10clean", "Audit.C10clean"]
+    audit = ["C20", "C10clean"]
+    tie = ["Consts", "SqlFull_rkey"]
+    facts = [r"^consts\.(bg_|close_calls|new_bgStart|open)", r"^sql\.rkey\.sqlDelete(All|N)Expired", r"^facts\.rkey\.Tx\.deleteExpired", r"^wrappers\.rkey\.DeleteExpired"]
+    listed = ALL_API_FINDINGS
+    rule = ("the reclamation step itself (Key().DeleteExpired(n), what the ticker calls with n = 0) on mixed populations of all five types with expiries "
+            "in the past and in the future, interleaved with ordinary operations, judged step by step against model and spec (the abstract keyspace "
+            "must not change, exactly the expired rows and their children disappear); the period, the started-iff-not-read-only rule and Close "
+            "stopping the ticker are tied to the source constants and used by the Lean theorems; real timers are observed only in the thorough tier")
+
+    def streams(self, tier, seed, search):
+        n, t, l = scale(tier, search)
+        out = [api(seed * 1000 + 800 + i, t, l, "expire,expire,str,list,set,hash,zset,key", "db", 0.02) for i in range(n)]
+        if tier == "thorough":
+            out.append(dict(kind="tick", args=["-seed", seed, "-keys", 2000]))
+        return out
+
+    def counts(self, op, v):
+        return op == "key.DeleteExpired" or "T" in v
+
+    def judge(self, op, v, mode):
+        if "T" in v:      # a TICK line of the real-time observation
+            if v.get("T") == "0":
+                return ("violation", "expired keys were not reclaimed within the period, or live keys were touched, or service failed during the tick")
+            return None
+        if op == "key.DeleteExpired":
+            r = judge_spec(v, self.listed)
+            if r:
+                return r
+            if v.get("P") == "1" and v.get("I") == "0":
+                return ("violation", "reclamation left the tables structurally inconsistent")
+        return None
+
+
 GLOB_TOKENS = ["a", "b", "*", "?", "[ab]", "[a-c]", "[^a]", "[!a]", "[", "]", "\\", "-", "[]a]", "[a-]", "[^]]", "c"]
 GLOB_ALPHA = "abcd*?[]-^!\\"
 
@@ -534,6 +671,9 @@ PROPS = {
     "C04": C04("C04", "hash", "rhash", {"D05", "D17"}),
     "C05": C05("C05", "zset", "rzset", {"D05", "D07", "D08", "D09"}),
     "C06": C06(),
+    "C07": C07(),
+    "C08": C08(),
+    "C09": C09(),
     "C10": C10(),
     "C11": C11(),
     "C12": C12(),
@@ -541,4 +681,5 @@ PROPS = {
     "C17": C17(),
     "C18": C18(),
     "C19": C19(),
+    "C20": C20(),
 }
